@@ -191,13 +191,10 @@ func (rn *runner) judge(d *dataset, qi int, q *querySpec, outs []outcome) {
 			case q.Meta == "" && !refOK[i]:
 				// already reported by the reference oracle for this cell
 			default:
-				addFail(classify(q, ran[i].cell, mm, "metamorphic", nil), "metamorphic",
-					fmt.Sprintf("differs from cell %s: %s", ran[best].cell, mm.String()), ran[i].cell, mm, ran[i].ans)
-				if len(fails) > 0 {
-					f := fails[classify(q, ran[i].cell, mm, "metamorphic", nil)]
-					if len(f.cells) == 1 {
-						f.cells = append(f.cells, ran[best].cell)
-					}
+				sig := classifyMeta(q, ran[i].cell, ran[best].cell, canon[best], canon[i], mm)
+				addFail(sig, "metamorphic", fmt.Sprintf("differs from cell %s: %s", ran[best].cell, mm.String()), ran[i].cell, mm, ran[i].ans)
+				if f := fails[sig]; len(f.cells) == 1 {
+					f.cells = append(f.cells, ran[best].cell)
 				}
 			}
 		}
@@ -328,6 +325,9 @@ func classifyError(q *querySpec, cl cell, err string) string {
 	if len(e) > 100 {
 		e = e[:100]
 	}
+	if cl.BTM && strings.Contains(err, "runtime panic") && strings.Contains(err, "slice bounds out of range") {
+		return sigBTMPanic
+	}
 	return "query-error|" + e
 }
 
@@ -382,4 +382,18 @@ func classify(q *querySpec, cl cell, mm *mismatch, oracle string, e *expected) s
 		obs = strings.Join(parts, "+")
 	}
 	return fmt.Sprintf("%s|%s|%s|%s", oracle, kind, strings.Join(feats, ","), obs)
+}
+
+// classifyMeta: signature of a disagreement between two cells of a metamorphic-only query.
+func classifyMeta(q *querySpec, a, b cell, ref, got *answer, mm *mismatch) string {
+	if a.BTM && len(got.Series) == 0 && len(ref.Series) > 0 {
+		return sigBTMEmpty
+	}
+	if q.Interval > 0 && q.Fill != "none" && (mm.Kind == "row" || mm.Kind == "row-count") {
+		n := len(ref.Series)
+		if fillSplitPossible(q, a, n) != fillSplitPossible(q, b, n) || (fillSplitPossible(q, a, n) && a.Inner != b.Inner) {
+			return sigMetaFill
+		}
+	}
+	return classify(q, a, mm, "metamorphic", nil)
 }
